@@ -30,10 +30,10 @@ Ltac canon_ln_u T unfT :=
    eigenvalues by the von Mises stress before taking powers)  and  Rpower T ia;  HQ : 0 < Q, HT : 0 < T, a ia = 1, T = S / k with S
    a polynomial with integer coefficients.  Everything is rewritten over the atoms R = sqrt Q, Y = T^(1/a) with Y^a k = S, then
    field_simplify_eq and ring modulo that relation. *)
-Ltac pow_atoms a ia k Q T S unfQ unfT unfAll HQ HT :=
-  abs_even; canon_sqrt_u Q unfQ;
+(* core: R0 is the normalising quantity (HR0 : 0 < R0) *)
+Ltac pow_core a ia k R0 HR0 T S unfT unfAll HT :=
   let R := fresh "R" in let HR := fresh "HR" in
-  pose proof (sqrt_lt_R0 _ HQ) as HR; set (R := sqrt Q) in *;
+  assert (HR := HR0); set (R := R0) in *;
   repeat match goal with
          | |- context [Rpower ?p ?e] =>
            tryif constr_eq p T then fail
@@ -57,3 +57,9 @@ Ltac pow_atoms a ia k Q T S unfQ unfT unfAll HQ HT :=
   let Sv := fresh "Sv" in set (Sv := S) in *; clearbody Sv; rewrite <- ?EZ; clear EZ HS HT Sv;
   unfAll; simpl Nat.sub in *;
   field_simplify_eq; [ ring [Ec] | side_split; first [ lra | exact sqrt2_neq0 ] ].
+
+Ltac pow_atoms a ia k Q T S unfQ unfT unfAll HQ HT :=
+  abs_even; canon_sqrt_u Q unfQ;
+  let HR := fresh "HRq" in
+  pose proof (sqrt_lt_R0 _ HQ) as HR;
+  pow_core a ia k (sqrt Q) HR T S unfT unfAll HT.
